@@ -289,6 +289,17 @@ class Codec:
     def want(self, ks): return [self.key(k) for k in ks]
 
 
+# Integer indices far outside any array: values that still fit a C int / a Py_ssize_t, and values that do not fit a
+# Py_ssize_t at all (converting those fails, and a binding that ignores the failure goes on with the error value -1).
+HUGE = [2**31 - 1, -2**31, 2**31, -2**31 - 1, 2**32, 2**32 + 1, -2**32, 2**63 - 1, -2**63, 2**63, -2**63 - 1, 2**64, -2**64, 2**64 + 1]
+
+
+def huge_class(k):
+    if -2**31 <= k < 2**31: return "int-range"
+    if -2**63 <= k < 2**63: return "ssize-range"
+    return "overflowing"
+
+
 def int_array(vals):
     m = imath.IntArray(len(vals))
     for i, v in enumerate(vals): m[i] = v
